@@ -3,6 +3,7 @@
 import importlib, json, os, sys
 V = os.path.dirname(os.path.dirname(os.path.abspath(__file__)))
 sys.path.insert(0, V)
+from engine import run
 props = [json.loads(l) for l in open(os.path.join(V, "properties.jsonl"))]
 NA = json.load(open(os.path.join(V, "tools/not_applicable.json")))
 checks = []
@@ -22,7 +23,7 @@ for p in props:
             "level_claimed": {
                 "category": "other",
                 "text": "Static analysis of /repo's type-checked MIR and Accounts constraints; decides only the structural necessary "
-                        "conditions named here, not the behavioural property as a whole. " + info["explanation"],
+                        "conditions named here, not the behavioural property as a whole. " + info["explanation"] + (run.UNITS_NOTE % pid if pid in run.UNITS_PROPS else ""),
                 "design_ref": "DESIGN.md section 4 (%s)" % pid,
             },
             "level_note": "Trusted: rustc (nightly) type check, MIR construction and callee resolution; Anchor derive expansion; external crate "
